@@ -349,7 +349,7 @@ func mkTransfer(rng *rand.Rand, id uint16, n, maxBody int) Transfer {
 func pkt(trs []Transfer, t, no int) frameItem { return frameItem{f: trs[t].Packet(no), tr: t, no: no} }
 
 func c14(c *Ctx) {
-	c.Rule = "transfers of N packets with packet 1 and a subset of the others received (every non-empty missing subset for N <= 11 quick / 13 thorough exhaustively; N in {64,255} and random N with random subsets), then clock steps (VerifParser.Age) 4995 / 5005 ms around the 5 s limit and 59995 / 60005 ms around the 60 s limit, repeated re-request rounds (the triggering read sometimes holding only part of a frame), partial resupply, duplicates and impossible numbers between rounds, restarts by a new packet 1, up to three message ids concurrently, completion after resupply, late packets after expiry; every read is followed by the housekeeping pass. A case is non-trivial when a 5 s or 60 s decision is exercised with a transfer pending; distinct = distinct request lines"
+	c.Rule = "transfers of N packets with packet 1 and a subset of the others received (every non-empty missing subset for N <= 11 quick / 13 thorough exhaustively; N in {64,255} and random N with random subsets), then clock steps (VerifParser.Age) 4995 / 5005 ms around the 5 s limit and 59995 / 60005 ms around the 60 s limit, repeated re-request rounds (the triggering read sometimes holding only part of a frame), partial resupply, duplicates and impossible numbers between rounds, restarts by a new packet 1, up to three message ids concurrently (also with STAGGERED idle periods: each id goes stale at its own time within 5 s of the others, several rounds), completion after resupply, late packets after expiry; every read is followed by the housekeeping pass. A case is non-trivial when a 5 s or 60 s decision is exercised with a transfer pending; distinct = distinct request lines"
 	rng := c.Rng
 	quick := c.Quick()
 	k := checker{c}
@@ -609,6 +609,77 @@ func c14(c *Ctx) {
 			acts = append(acts, action{frames: rest})
 		}
 		k.run(trs, acts, "expiry")
+	}
+
+	// (5) staggered idle periods: two or three transfers of different ids whose last packets arrive a
+	// few hundred ms .. 4 s apart: each goes stale at its own time, within 5 s of the others; a
+	// re-request for one id must not refresh the idle clock of another (seeded bug C14-15), over
+	// several rounds and with partial resupply of one of them in between
+	nstag := 400
+	if !quick {
+		nstag = 8000
+	}
+	for i := 0; i < nstag; i++ {
+		ntr := 2 + rng.Intn(2)
+		rng.Shuffle(len(ids), func(a, b int) { ids[a], ids[b] = ids[b], ids[a] })
+		var trs []Transfer
+		for t := 0; t < ntr; t++ {
+			tr := mkTransfer(rng, ids[t], 3+rng.Intn(5), 4)
+			if t > 0 && rng.Intn(2) == 0 {
+				tr.Phone, tr.Ver2019 = trs[0].Phone, trs[0].Ver2019
+			}
+			trs = append(trs, tr)
+		}
+		// absolute schedule: (time, frames)
+		type ev struct {
+			at     int
+			frames []frameItem
+		}
+		var evs []ev
+		last := make([]int, ntr) // time of the last stored packet / expected re-request of each transfer
+		missing := make([][]int, ntr)
+		at := 0
+		for t := 0; t < ntr; t++ {
+			if t > 0 {
+				at += 300 + rng.Intn(1900) // all within 4.7 s of the first
+			}
+			fs := []frameItem{pkt(trs, t, 1)}
+			for q := 2; q <= len(trs[t].Bodies); q++ {
+				if q == 2 || rng.Intn(2) == 0 {
+					missing[t] = append(missing[t], q)
+				} else {
+					fs = append(fs, pkt(trs, t, q))
+				}
+			}
+			evs = append(evs, ev{at, fs})
+			last[t] = at
+		}
+		// rounds: every transfer is polled 5005 ms after its own last progress; sometimes a packet of it is resupplied right after
+		rounds := 1 + rng.Intn(3)
+		for r := 0; r < rounds; r++ {
+			for t := 0; t < ntr; t++ {
+				when := last[t] + 5005
+				evs = append(evs, ev{when, []frameItem{heartbeat(rng)}})
+				last[t] = when
+				if len(missing[t]) > 1 && rng.Intn(3) == 0 {
+					q := missing[t][0]
+					missing[t] = missing[t][1:]
+					evs = append(evs, ev{when + 40 + rng.Intn(100), []frameItem{pkt(trs, t, q)}})
+					last[t] = evs[len(evs)-1].at
+				}
+			}
+		}
+		sort.SliceStable(evs, func(a, b int) bool { return evs[a].at < evs[b].at })
+		var acts []action
+		now := 0
+		for _, e := range evs {
+			if e.at > now {
+				acts = append(acts, action{age: e.at - now})
+				now = e.at
+			}
+			acts = append(acts, action{frames: e.frames})
+		}
+		k.run(trs, acts, "staggered")
 	}
 
 	for _, o := range <-sockDone {
